@@ -80,3 +80,57 @@ contract(
     domain=False,
     props=["C06", "C18"],
 )
+
+contract(
+    target=f"{T}::trim_trailing_layout_newline",
+    params={"trivia_list": ListRef(), "rendered": Str},
+    returns=Str,
+    ensures=[
+        # the final newline is dropped exactly when the last trivia item is not a layout marker
+        "implies(len(trivia_list) > 0 and trivia_list[len(trivia_list) - 1] is not linebreak and trivia_list[len(trivia_list) - 1] is not empty_line "
+        "and rendered.endswith('\\n'), result == rendered[:len(rendered) - 1])",
+        "implies(len(trivia_list) == 0 or trivia_list[len(trivia_list) - 1] is linebreak or trivia_list[len(trivia_list) - 1] is empty_line "
+        "or not rendered.endswith('\\n'), result == rendered)",
+        "heap_unchanged()",
+    ],
+    domain=False,
+    props=["C01", "C06", "C18"],
+)
+
+contract(
+    target=f"{T}::append_gap_trivia",
+    params={"trivia": ListRef(), "gap": Str, "include_linebreak": Bool},
+    returns=NoneT,
+    modifies=["trivia[]"],
+    # a gap is reduced to one marker: empty_line if it contains a blank line, else linebreak if it contains a line feed
+    ensures=[
+        "implies(has_blank_line(gap), len(trivia) == old(len(trivia)) + 1 and trivia[len(trivia) - 1] is empty_line)",
+        "implies(not has_blank_line(gap) and has_newline(gap) and include_linebreak, len(trivia) == old(len(trivia)) + 1 and trivia[len(trivia) - 1] is linebreak)",
+        "implies(not has_blank_line(gap) and not (has_newline(gap) and include_linebreak), len(trivia) == old(len(trivia)))",
+        "all(trivia[j] is old(trivia[j]) for j in range(old(len(trivia))))",
+    ],
+    domain=False,
+    props=["C02", "C06", "C18"],
+)
+
+contract(
+    target=f"{T}::trim_leading_layout_trivia",
+    params={"trivia": ListRef()},
+    returns=ListRef(),
+    modifies=[],
+    ensures=[
+        # a fresh list (the argument is not modified): leading layout markers removed, the rest kept in order
+        "heap_unchanged()",
+        "len(result) <= len(trivia)",
+        "implies(len(result) > 0, result[0] is not linebreak and result[0] is not empty_line)",
+        "all(result[j] is trivia[j + len(trivia) - len(result)] for j in range(len(result)))",
+        "all(trivia[j] is linebreak or trivia[j] is empty_line for j in range(len(trivia) - len(result)))",
+    ],
+    loops={0: Loop(invariant=[
+        "trimmed >= alloc_at_entry()", "len(trimmed) <= len(trivia)",
+        "all(trimmed[j] is trivia[j + len(trivia) - len(trimmed)] for j in range(len(trimmed)))",
+        "all(trivia[j] is linebreak or trivia[j] is empty_line for j in range(len(trivia) - len(trimmed)))",
+    ], modifies=["trimmed[]"], decreases="len(trimmed)")},
+    domain=False,
+    props=["C18", "C15"],
+)
